@@ -130,9 +130,11 @@ class TrampolinePart:
 def run(tier, seed, replay=None):
     small = dict(quick=dict(preemptions=2, max_execs=1000), thorough=dict(preemptions=3, max_execs=40000), random_execs=(200, 4000))
     parts = [
-        AtomicPart("eventloop", "scn_c06.cpp", LIBS, "eventloop", LOOP, quick=dict(preemptions=2, max_execs=2000)),
+        AtomicPart("eventloop", "scn_c06.cpp", LIBS, "eventloop", LOOP, quick=dict(preemptions=2, max_execs=1500)),
         AtomicPart("atomicqueue", "scn_c06.cpp", LIBS, "atomicqueue", AQ, quick=dict(preemptions=2, max_execs=2500)),
-        AtomicPart("threadpool", "scn_c06.cpp", LIBS, "threadpool", POOL, **small),
+        # pool_2c (two pool threads + external producer, 45k model states: the trace-inclusion test alone
+        # takes minutes) runs in the thorough tier only
+        AtomicPart("threadpool", "scn_c06.cpp", LIBS, "threadpool", [p for p in POOL if tier != "quick" or p != "pool_2c"], **small),
         AtomicPart("newthread", "scn_c06.cpp", LIBS, "newthread", NT, **small),
         TrampolinePart(),
         ModelSweepPart(),
@@ -142,7 +144,7 @@ def run(tier, seed, replay=None):
         ["UnifexModel.Props.C06", "UnifexModel.Props.C06_loop", "UnifexModel.Props.C06_loop2", "UnifexModel.Props.C06_queue",
          "UnifexModel.Props.C06_queue2", "UnifexModel.Props.C06_pool", "UnifexModel.Props.C06_loop3", "UnifexModel.Props.C06_newthread"],
         parts,
-        rule="every schedule (DFS preemption-bounded + random/PCT walks) of 30 scenarios on the REAL manual_event_loop, single_thread_context, "
+        rule="every schedule (DFS preemption-bounded + random/PCT walks) of 30 scenarios (29 in the quick tier) on the REAL manual_event_loop, single_thread_context, "
              "static_thread_pool, new_thread_context and atomic_intrusive_queue under the controlled scheduler (interposed mutex/condvar/threads); "
              "a case = one distinct observable history, non-trivial = admitted by the Lean model of the same name; plus generated nesting trees "
              "through the real trampoline_scheduler compared event-for-event with Proto/Trampoline (non-trivial = at least one deferred item)",
